@@ -132,6 +132,8 @@ FLAT2 = obj(
     F("i1", INNER, flatten=True),
     F("i2", INNER2, flatten=True),
 )
+MID = obj("Mid", F("inner", INNER, flatten=True), F("m", INT, default=V("0")))
+FLAT3 = obj("Outer3", F("mid", MID, flatten=True), F("w", INT, default=V("0")))
 PROPS = obj(
     "Props",
     F("n", INT, default=V("0")),
@@ -242,6 +244,7 @@ OBJECTS: Dict[str, Tuple[Sp, str]] = {
     "TD2": (TD2, ""),
     "Flat": (FLAT, ""),
     "Flat2": (FLAT2, ""),
+    "Flat3": (FLAT3, ""),
     "Props": (PROPS, ""),
     "Props2": (PROPS2, ""),
     "Addl": (ADDL, ""),
